@@ -349,11 +349,18 @@ class FIXNewOrderSingle:
 
         elif fix_msg_type == FMsg.ORDERCANCELREJECT:  # '9'
             status_transitions = {
+                # nothing was sent for a just created order, nothing to reject
+                FOrdStatus.CREATED: {None: FIXError},
+                # finished orders never change status (late / stale reject)
+                FOrdStatus.FILLED: {None: None},
+                FOrdStatus.CANCELED: {None: None},
+                FOrdStatus.REJECTED: {None: None},
+                FOrdStatus.EXPIRED: {None: None},
                 None: {
                     FOrdStatus.CREATED: FIXError,
                     FOrdStatus.ACCEPTED_FOR_BIDDING: FIXError,
                     None: True,
-                }
+                },
             }
         elif (
             fix_msg_type == FMsg.ORDERCANCELREQUEST
